@@ -38,6 +38,39 @@ def run_config(chk, tier, cfgname):
     pairing(chk, prog)
     fetch_rules(chk, prog)
     c12.rebrand(chk, prog, cfgname)
+    handle_never_touches_the_object(chk, prog)
+
+
+def handle_never_touches_the_object(chk, prog, rule="outlived-handle-forms-no-reference"):
+    """"Handles may outlive their arena harmlessly": a DynamicRoot is 'static and may be used - cloned, dropped, asked
+    for its raw pointer - after the object, the set or the whole arena is gone; only the set's fetch / try_fetch /
+    contains check that it is not. So no function *of the handle type itself* may reach one of the block accessors that
+    hand out a reference into the block (the GcPtr methods returning `&..` that are not 'static data, and Gc's Deref /
+    AsRef built on them): forming that reference to freed memory is undefined behaviour although nothing reads through
+    it (F15: as_ptr went through Deref)."""
+    prog.edges()
+    forming = set()
+    for n, fs in prog.fn_n.items():
+        if n.startswith("gc_ptr::GcPtr::"):
+            out = fs[0]["output"]["s"]
+            if out.startswith("&") and not out.startswith("&'static"):
+                forming.add(n)
+    forming |= {n for n in prog.fn_n if n.startswith("<gc::Gc as core::ops::deref::Deref>::") or
+                n.startswith("<gc::Gc as core::convert::AsRef>::") or n.startswith("<gc::Gc as core::borrow::Borrow>::")}
+    if not chk.anchor("gc_ptr::GcPtr reference accessors", len(forming) >= 2):
+        return
+    n = 0
+    for fn in sorted(prog.fn_n):
+        if not (fn.startswith("dynamic_roots::DynamicRoot::") or fn.startswith("<dynamic_roots::DynamicRoot as ")):
+            continue
+        n += 1
+        hit = sorted(set(prog.reachable_from([fn])) & forming)
+        f = prog.fn_n[fn][0]
+        chk.inst(rule, fn, not hit,
+                 detail="`%s` is a function of the handle type - callable after the stashed object, the set or the arena is "
+                        "gone - and reaches %s, which forms a reference into the (possibly freed) block" % (fn, hit),
+                 loc="%s:%s" % (f["span"]["f"], f["span"]["l"]), sample={"reference_forming_accessors": sorted(forming)})
+    chk.floor("handle-functions", n, 3)
 
 
 def slot_strong(chk, prog):
